@@ -37,7 +37,18 @@ STATEMENT_STATUS: Dict[str, str] = {
 
 # (class, exception, innermost function, fault kind, note)
 OPEN: List[Tuple[str, str, str, str, str]] = [
+    ("budget", "", "", "extreme",
+     "layout analysis of text scaled to astronomic coordinates (e.g. form XObject /Matrix [1e30 ...] analysed with "
+     "LAParams(all_texts=True)): utils.Plane.add enumerates every grid cell the text line covers - work unbounded in the "
+     "input size.  Only the option variant text_la reaches it through the object-level faults; the repair belongs to "
+     "utils.Plane (keep objects that span more than N cells in an overflow list), which is C20's proved model, so it "
+     "is recorded here instead of patched"),
 ]
+
+# open findings that are specific to one entry-point variant: the classifier also requires that entry
+OPEN_ENTRY: Dict[Tuple[str, str, str, str], Tuple[str, ...]] = {
+    ("budget", "", "", "extreme"): ("text_la",),
+}
 
 # Findings of round 1 that no longer occur (full enumeration on the integrated tree + round-2 fixes);
 # kept for the record only - they are NOT classifiers any more: a recurrence is a VIOLATION.
@@ -102,10 +113,12 @@ def classifier_name(cls: str, exc: str, where: str, kind: str) -> str:
 
 
 def _pred(cls: str, exc: str, where: str, kind: str) -> Callable[[Any], bool]:
+    entries = OPEN_ENTRY.get((cls, exc, where, kind))
+
     def p(f: Any) -> bool:
         t = f.tags
         return (t.get("cls") == cls and t.get("exc", "") == exc and t.get("where", "") == where
-                and t.get("kind") == kind)
+                and t.get("kind") == kind and (entries is None or t.get("entry") in entries))
     return p
 
 
@@ -127,6 +140,15 @@ def fragment() -> Dict[str, Any]:
 
 
 FIXED: List[str] = [
+    "fixed: property=C13 b008bbf stream whose /Length refers to the stream itself: RecursionError in getobj",
+    "fixed: property=C13 9e1c212 negative or oversized /Length: wrong data / OverflowError",
+    "fixed: property=C13 be941ec inline image with /F that is neither name nor non-empty array: TypeError/IndexError/KeyError",
+    "fixed: property=C13 0600ab2 number tree (PageLabels) with cyclic /Kids: RecursionError",
+    "fixed: property=C13 8b1ab59 /Prev or /XRefStm beyond the largest file offset: OverflowError from seek",
+    "fixed: property=C13 7cdbd5f colour space with absurd /N: MemoryError/OverflowError in _initial_color",
+    "fixed: property=C13 a2c64ac absurd predictor /Columns: MemoryError from PDFStream.decode",
+    "fixed: property=C13 79a7e11 CCITTFaxDecode with non-dictionary DecodeParms: AttributeError",
+    "fixed: property=C13 fb38caf image export with implausible Width/Height/BitsPerComponent: TypeError/struct.error in ImageWriter",
     "fixed: property=C13 be736a1 resolve1 looped forever on a circular chain of indirect references (6 0 obj 6 0 R, 2-cycles)",
     "fixed: property=C13 0293c3a resolve_all recursed without end on circular references",
     "fixed: property=C13 46a54ec PDFStream.decode leaked decoder-internal errors (binascii.Error, ValueError, IndexError, RuntimeError/StopIteration, TypeError) on damaged LZW/ASCII85/ASCIIHex/RunLength data, predictors and DecodeParms",
